@@ -141,10 +141,10 @@ Definition inst_valid (now : N) (c : bcache) (inst : name) : bool :=
   | h => existsb (fun r => negb (r_soon now r)) (bucket (bc_addr c) (lower h))
   end.
 
-(* get_instances_on_host: SRV buckets whose first record names exactly `host` *)
+(* get_instances_on_host: SRV buckets whose first record names `host` (compared in lower case) *)
 Definition instances_on_host (c : bcache) (host : name) : list name :=
   flat_map (fun kb => match snd kb with
-                      | r :: _ => if beq (c_target r) host then [fst kb] else []
+                      | r :: _ => if beq (lower (c_target r)) (lower host) then [fst kb] else []
                       | [] => []
                       end) (bc_srv c).
 
@@ -179,14 +179,17 @@ Definition should_flush (now : N) (x r : crec) : bool :=
 Definition flush_rec (now : N) (x r : crec) : crec :=
   if should_flush now x r then c_set_life (life_set_expire (hp_flush_new_expire now) (c_life r)) r else r.
 
-Fixpoint update_rec (now : N) (x : crec) (b : list crec) : option (list crec * crec) :=
+(* first matching record: reset_ttl; the flag says "returned as new": a record on its way out
+   (TTL <= 1) that is announced again with TTL > 1 *)
+Fixpoint update_rec (now : N) (x : crec) (b : list crec) : option (list crec * crec * bool) :=
   match b with
   | [] => None
   | r :: t =>
     if crec_matches r x then
-      let r' := c_set_life (life_reset now (l_ttl (c_life x))) r in Some (r' :: t, r')
+      let r' := c_set_life (life_reset now (l_ttl (c_life x))) r in
+      Some (r' :: t, r', hp_revived (l_ttl (c_life r)) (l_ttl (c_life x)))
     else match update_rec now x t with
-         | Some (t', u) => Some (r :: t', u)
+         | Some (t', u, rv) => Some (r :: t', u, rv)
          | None => None
          end
   end.
@@ -228,7 +231,7 @@ Definition aou_kind (k : kind) (now : N) (fu ok : bool) (x : crec) (c : bcache)
     let b1 := if c_flush x then map (flush_rec now x) b else b in
     let ft := if c_flush x then map (fun _ => hp_flush_new_expire now) (filter (should_flush now x) b) else [] in
     match update_rec now x b1 with
-    | Some (b2, u) => (set_map k (aset key b2 m) c1, ft, Some (u, false))
+    | Some (b2, u, rv) => (set_map k (aset key b2 m) c1, ft, Some (u, rv))
     | None => (set_map k (aset key (x :: b1) m) c1, ft, Some (x, true))
     end.
 
@@ -440,11 +443,14 @@ Definition query_unresolved (c : bcache) (inst : name) : bool :=
 Definition exec_rerun (now : N) (s : bst) (x : N * rcmd) : bst :=
   match snd x with
   | RBrowse ty delay => browse_send now ty delay s
-  | RHost host delay => host_send now host delay s
+  | RHost host delay =>
+    (* a retransmission whose search was stopped or timed out meanwhile does not run *)
+    if ahas (lower host) (b_resolvers s) then host_send now host delay s else s
   | RResolve inst n =>
     if query_unresolved (b_cache s) inst && hp_resolve_retry n hp_resolve_max_try
     then add_retr (now + hp_resolve_wait_ms) (RResolve inst (n + 1)) s
-    else s
+    else (* the follow-up queries are over: the instance leaves pending_resolves *)
+      set_sets (del_name inst (b_pending s)) (b_resolved s) s
   end.
 
 Definition do_reruns (now : N) (s : bst) : bst :=
